@@ -730,7 +730,10 @@ def classifyPayload (env : Env) (data : Bytes) : Item :=
     | .unordered => viaEnv env data
     | .three m _ args =>
       -- a request: answered by the guarded `_dispatch_request` - unless it is the protocol's own goodbye
-      if numEq m Gen.Srv.msgRequest then (if isCloseRequest args then .bye else .handled)
+      -- (one whose arguments carry a by-reference object makes the server ask the sender about it and wait for the answer
+      -- for up to sync_request_timeout: not modelled)
+      if numEq m Gen.Srv.msgRequest then
+        (if isCloseRequest args then .bye else if hasRemoteRef args then viaEnv env data else .handled)
       -- a response nobody waits for: `_deliver_response` keeps decode failures to itself, `_seq_request_callback` finds no
       -- callback; an exception message is rebuilt by `vinegar.load` (no round trip), a reply is unboxed - which asks the
       -- sender about every by-reference object in it: not modelled
@@ -747,7 +750,8 @@ def needsEnvPayload (data : Bytes) : Bool :=
     | .notThree => false
     | .unordered => true
     | .three m _ args =>
-      !numEq m Gen.Srv.msgRequest && !numEq m Gen.Srv.msgException && numEq m Gen.Srv.msgReply && hasRemoteRef args
+      (numEq m Gen.Srv.msgRequest && !isCloseRequest args && hasRemoteRef args) ||
+      (!numEq m Gen.Srv.msgRequest && !numEq m Gen.Srv.msgException && numEq m Gen.Srv.msgReply && hasRemoteRef args)
 
 def classifyFrame (env : Env) (flag : Nat) (data : Bytes) : Item :=
   if flag = 0 then (if data.isEmpty then .empty else classifyPayload env data)
